@@ -182,6 +182,7 @@ public:
         __TBB_ASSERT( k, "Zero segment must be embedded" );
         size_type sz;
         __TBB_ASSERT( !is_valid(my_table[k].load(std::memory_order_relaxed)), "Wrong concurrent assignment");
+        __TBB_VERIF_POINT(vp_chm_enable_segment, this, k);
         if (k >= first_block) {
             sz = segment_size(k);
             segment_ptr_type ptr = nullptr;
@@ -261,6 +262,7 @@ public:
         hashcode_type m_now, m_old = m;
         m_now = my_mask.load(std::memory_order_acquire);
         if (m_old != m_now) {
+            __TBB_VERIF_POINT(vp_chm_mask_race, this, 1);
             return check_rehashing_collision(h, m_old, m = m_now);
         }
         return false;
@@ -728,6 +730,7 @@ protected:
     void rehash_bucket( bucket *b_new, const hashcode_type hash ) {
         __TBB_ASSERT( hash > 1, "The lowermost buckets can't be rehashed" );
         b_new->node_list.store(reinterpret_cast<node_base*>(empty_rehashed_flag), std::memory_order_release); // mark rehashed
+        __TBB_VERIF_POINT(vp_chm_rehash_bucket, this, 0);
         hashcode_type mask = (hashcode_type(1) << tbb::detail::log2(hash)) - 1; // get parent mask from the topmost bit
         bucket_accessor b_old( this, hash & mask );
 
@@ -742,6 +745,7 @@ protected:
             if ((curr_node_hash & mask) == hash) {
                 if (!b_old.is_writer()) {
                     if (!b_old.upgrade_to_writer()) {
+                        __TBB_VERIF_POINT(vp_chm_bucket_upgrade, this, 1);
                         goto restart; // node ptr can be invalid due to concurrent erase
                     }
                 }
@@ -1331,9 +1335,11 @@ protected:
             // TODO: the following seems as generic/regular operation
             // acquire the item
             if( !result->try_acquire( n->mutex, write ) ) {
+                __TBB_VERIF_POINT(vp_chm_elem_lock_backoff, this, 1);
                 for( tbb::detail::atomic_backoff backoff(true);; ) {
                     if( result->try_acquire( n->mutex, write ) ) break;
                     if( !backoff.bounded_pause() ) {
+                        __TBB_VERIF_POINT(vp_chm_elem_lock_backoff, this, 0);
                         // the wait takes really long, restart the operation
                         b.release();
                         __TBB_ASSERT( !OpInsert || !return_value, "Can't acquire new item in locked bucket?" );
@@ -1411,6 +1417,7 @@ protected:
             this->my_size--;
             break;
         } while(true);
+        __TBB_VERIF_POINT(vp_chm_erase_unlinked, this, 0);
         if (!item_accessor.is_writer()) { // need to get exclusive lock
             item_accessor.upgrade_to_writer(); // return value means nothing here
         }
